@@ -277,6 +277,43 @@ theorem discarded_states_released (plan : Plan) (ops : List Op) (t : Nat) (i : I
   · rw [hq] at h; cases h
   · rwa [getProc_idx hp] at h
 
+/-! ### the deletion queue belongs to ONE helper object
+
+`Proc.queue` is a field of the helper: the model assumes that every `CompiledSubprocess` owns its
+deque.  The translator checks exactly that (`self._inference_state_deletion_queue =
+collections.deque()` in `__init__`, no class attribute, no module global). -/
+
+/-- the deque is created per helper object in the source -/
+theorem src_queue_per_helper : JediModel.Gen.C14.queuePerHelper = true := by decide
+
+/-- **A replacement helper starts with nothing to delete**: whatever the history (any environment
+state, any plan), the `CompiledSubprocess` that `Environment._get_subprocess` creates has an empty
+deletion queue after its handshake - ids queued for a crashed predecessor never reach it. -/
+theorem replacement_helper_queue_empty (plan : Plan) (e : Env) (p : Proc)
+    (h : (getSub.fresh srcCfg plan e).1.procs.head? = some p) : p.queue = [] := by
+  unfold getSub.fresh at h
+  have hq := (send_idx_queue srcCfg plan { idx := e.procs.length } .info).2
+  revert h
+  rcases hres : send srcCfg plan { idx := e.procs.length } .info with ⟨np, o⟩
+  rw [hres] at hq
+  simp only at hq
+  cases o <;> simp only <;> (try split) <;> intro h <;> simp at h <;> (subst h; exact hq)
+
+/-- ... and so the first request of a Script bound to a fresh helper is never answered with the
+`KeyError` of a deletion the helper knows nothing about: the flush loop of `run` has nothing to send. -/
+theorem fresh_helper_first_run_sends_no_delete (plan : Plan) (p : Proc) (s : Nat) (hq : p.queue = []) :
+    run srcCfg plan p s = send srcCfg plan { p with queue := [] } (.call s) := by
+  unfold run
+  rw [hq]
+  simp [drain]
+
+/-- witness (what ONE deque shared by all helper objects does): the replacement helper finds the ids
+queued for its crashed predecessor, asks its own process to delete a state that process never had,
+and the Script's request fails with the helper's `KeyError` - a second failing query for one crash,
+and not an `InternalError`. -/
+theorem shared_queue_replacement_fails_with_keyerror :
+    (run srcCfg (planOf []) { idx := 1, queue := [7, 8] } 3).2 = .remote "KeyError" := by decide
+
 /-- the wrapper with `self._used = True` moved behind `run(...)` (literal, independent of the source) -/
 def usedLateCfg : Cfg :=
   { dumpCatch := ["BrokenPipeError"], loadCatch := ["EOFError", "pickle.UnpicklingError"],
